@@ -97,4 +97,61 @@ def getModuleInfo (handlers : List String) (finallyRestores : Bool) (st : HState
       | .ok => .value
       | .raises cls => if handlers.any (isSub cls) then .noneReturned else .propagates cls)
 
+/-! ### the host side: jedi's own lazy `import` statements of optional dependencies
+
+`jedi/inference/docstrings.py:_get_numpy_doc_string_cls` runs
+`from numpydoc.docscrape import NumpyDocString` in the process that runs jedi, every time a
+docstring is consulted.  What that statement can execute is decided by the search path it sees.
+The finder (`provides d`: directory `d` holds a top-level `numpydoc`) is a parameter. -/
+
+/-- how the function composes the `sys.path` the import statement sees (read from the source) -/
+inductive PathShape
+  | hostOnly        -- no write to `sys.path` in the function: the host's own path
+  | hostThenExtra   -- `temp = sys.path; sys.path = temp + [p for p in extra if p not in temp]`
+  | extraThenHost   -- `sys.path = extra + temp`
+  | extraOnly       -- `temp, sys.path = sys.path, extra`
+deriving DecidableEq, Repr
+
+def PathShape.ofString : String → Option PathShape
+  | "hostOnly" => some .hostOnly
+  | "hostThenExtra" => some .hostThenExtra
+  | "extraThenHost" => some .extraThenHost
+  | "extraOnly" => some .extraOnly
+  | _ => none
+
+/-- the path the import statement is resolved against; `extra` = what the callers hand over
+(the analysed project's sys path) -/
+def searchPath (shape : PathShape) (hostPath extra : List String) : List String :=
+  match shape with
+  | .hostOnly => hostPath
+  | .hostThenExtra => hostPath ++ extra.filter fun p => !hostPath.contains p
+  | .extraThenHost => extra ++ hostPath
+  | .extraOnly => extra
+
+/-- the import system's path search: the first directory that provides the name -/
+def provider (provides : String → Bool) (path : List String) : Option String := path.find? provides
+
+/-- the host's state as far as this import is concerned -/
+structure LazyState where
+  loadedFrom : Option String := none   -- directory of the package now in `sys.modules`
+  executed : List String := []          -- ghost: directories whose package code ran, in order
+deriving DecidableEq, Repr
+
+/-- one call of `_get_numpy_doc_string_cls` (a failing import is an `ImportError` the callers
+swallow: `except Exception: return []`; a successful one leaves the package in `sys.modules`, so
+the statement executes nothing the next time) -/
+def lazyImport (shape : PathShape) (provides : String → Bool) (hostPath : List String)
+    (st : LazyState) (extra : List String) : LazyState :=
+  match st.loadedFrom with
+  | some _ => st
+  | none =>
+    match provider provides (searchPath shape hostPath extra) with
+    | some d => { loadedFrom := some d, executed := st.executed ++ [d] }
+    | none => st
+
+/-- a history of docstring look-ups, each made for a query with its own project sys path -/
+def lazyHistory (shape : PathShape) (provides : String → Bool) (hostPath : List String)
+    (st : LazyState) (extras : List (List String)) : LazyState :=
+  extras.foldl (lazyImport shape provides hostPath) st
+
 end JediModel.NoExec
